@@ -191,6 +191,13 @@ def work_init(init: dict) -> None:
     lg.propagate = False
     lg.setLevel(logging.CRITICAL)
 
+    if init.get("lazy"):
+        # first-use cases: nothing but the package itself is imported; the extractor modules stay unloaded until the router asks for them
+        import sharepoint2text
+        from sharepoint2text.parsing.exceptions import ExtractionFileFormatNotSupportedError
+        _S.update(cfg=init, lazy=True, sp=sharepoint2text, NotSupported=ExtractionFileFormatNotSupportedError, mimetypes=mimetypes)
+        return
+
     import sharepoint2text
     import sharepoint2text.parsing.extractors as E
     from sharepoint2text.parsing import router
@@ -313,10 +320,64 @@ def _route_one(p: str):
     return s, e
 
 
+def _first_use(case: dict) -> dict:
+    """n threads released together ask the router about paths of formats whose extractor module this process has never imported."""
+    import sys
+    import threading
+
+    sp = _S["sp"]
+    paths = case["paths"]
+    n = len(paths)
+    before = sorted(m for m in sys.modules if m.startswith("sharepoint2text.parsing.extractors."))
+    bar = threading.Barrier(n)
+    res: list = [None] * n
+    objs: list = [None] * n
+
+    def body(i):
+        p = paths[i]
+        bar.wait()
+        try:
+            f = sp.get_extractor(p)
+            objs[i] = f
+            g = "R>" + str(getattr(f, "__module__", "?")) + ":" + str(getattr(f, "__name__", "?"))
+        except _S["NotSupported"]:
+            g = "N"
+        except BaseException as e:
+            g = "E:" + type(e).__name__ + ":" + str(e)[:80]
+        try:
+            s_ = 1 if sp.is_supported_file(p) else 0
+        except BaseException as e:
+            s_ = "E:" + type(e).__name__
+        res[i] = [s_, g]
+    old = sys.getswitchinterval()
+    sys.setswitchinterval(1e-5)
+    ts = [threading.Thread(target=body, args=(i,)) for i in range(n)]
+    try:
+        for t in ts:
+            t.start()
+        for t in ts:
+            t.join(120)
+    finally:
+        sys.setswitchinterval(old)
+    # reference: the same question asked again, alone, now that everything is loaded (which extractor is the documented one is judged by the
+    # stubbed worker pools; here only "the concurrent first answer is the answer")
+    for i, p in enumerate(paths):
+        if res[i] is None:
+            continue
+        try:
+            ref = sp.get_extractor(p)
+            res[i] += [(ref is objs[i]) if objs[i] is not None else None, str(getattr(ref, "__module__", "?"))]
+        except BaseException as e:
+            res[i] += ["E:" + type(e).__name__, None]
+    return {"first": res, "loaded_before": before, "lazy": bool(_S.get("lazy")), "pid": os.getpid()}
+
+
 def work(case: dict) -> dict:
     from pathlib import Path
 
     k = case["k"]
+    if k == "firstuse":
+        return _first_use(case)
     base = {"doc": _S["doc"], "nstubs": len(_S["stubs"]), "rebinds": _S["rebinds"], "same_entry": _S["same_entry"],
             "import_failures": _S["import_failures"], "pid": os.getpid()}
     if k == "probe":
@@ -737,6 +798,94 @@ def _sequence_cases(run, cfgs, canary, wl, universe):
     return cases
 
 
+def _first_use_cases(run):
+    """One fresh process per documented extractor (+ mixed pairs): 8 threads released together ask for spellings of names that route to it."""
+    rng = run.rng
+    by_fn: dict = {}
+    for ext, fn in sorted(DOC_TABLE.items()):
+        by_fn.setdefault(fn, []).append(ext)
+    cases = []
+
+    def names(fn, n):
+        out = []
+        for _ in range(n):
+            ext = rng.choice(by_fn[fn])
+            out.append(rng.choice(DIRS[:8]) + rng.choice(STEMS[:10]) + "." + rng.choice((ext, ext.upper(), _mix(rng, ext))))
+        return out
+    fns = sorted(by_fn)
+    for rep in range(run.n(1, 4)):
+        for fn in fns:
+            cases.append({"k": "firstuse", "id": f"f{len(cases)}", "paths": names(fn, 8), "fns": [fn]})
+        for _ in range(run.n(4, 20)):
+            a, b = rng.sample(fns, 2)
+            cases.append({"k": "firstuse", "id": f"f{len(cases)}", "paths": names(a, 4) + names(b, 4), "fns": [a, b]})
+        # formats whose extractor modules live in one sub-package (read from the router's registry, as workload only): 2-4 of them at once
+        try:
+            from sharepoint2text.parsing import router
+            by_pkg: dict = {}
+            for _ft, (mod, fn) in sorted(getattr(router, "_EXTRACTOR_REGISTRY", {}).items()):
+                if fn in by_fn:
+                    by_pkg.setdefault(mod.rpartition(".")[0], set()).add(fn)
+            for pkg, members in sorted(by_pkg.items()):
+                members = sorted(members)
+                if len(members) < 2:
+                    continue
+                for _ in range(run.n(2, 6)):
+                    pick = rng.sample(members, min(len(members), rng.randint(2, 4)))
+                    ps = [n_ for f_ in pick for n_ in names(f_, 8 // len(pick))]
+                    cases.append({"k": "firstuse", "id": f"f{len(cases)}", "paths": ps, "fns": pick})
+        except Exception as e:  # workload only
+            run.extras["router_registry_unreadable_for_first_use"] = repr(e)
+    return cases
+
+
+def _judge_first_use(run, cases, res):
+    n_threads = n_cold = 0
+    for c in cases:
+        o = res.get(c["id"])
+        if not o or "first" not in o or not o.get("lazy"):
+            run.inconclusive_cases += 1
+            run.extras.setdefault("bad_observations", []).append({"config": "first-use", "case": c["id"], "obs": str(o)[:300]})
+            continue
+        cold = True
+        # which modules the case makes the process import: one; two of one sub-package (whose __init__ imports its siblings); two of different ones
+        mods = sorted({r[3] for r in o["first"] if r is not None and len(r) > 3 and r[3]})
+        how = "concurrent-first-use"
+        if len(mods) > 1:
+            how += "-of-sibling-modules" if len({m.rpartition(".")[0] for m in mods}) < len(mods) else "-of-two-formats"
+        for p, r in zip(c["paths"], o["first"]):
+            if r is None:
+                run.inconclusive_cases += 1
+                continue
+            s_, g = r[0], r[1]
+            same = r[2] if len(r) > 2 else None
+            cls, ext, hidden = model(p)
+            want = DOC_TABLE[ext]
+            n_threads += 1
+            feat = f"{cls}-ext+{how}"
+            rep = {"kind": "firstuse", "case": c, "path": p, "obs": r}
+            mod = g[2:].split(":")[0] if g.startswith("R>") else None
+            if mod and mod in o["loaded_before"]:
+                cold = False
+            if isinstance(s_, str):
+                run.violation(f"C07:router:{feat}:is-supported-file-raises", f"is_supported_file({p!r}) raised {s_[2:]} while {len(c['paths'])} threads used the format for the first time", rep)
+            if g.startswith("E:"):
+                run.violation(f"C07:router:{feat}:get-extractor-raises-other-than-not-supported",
+                              f"get_extractor({p!r}) raised {g[2:]} while {len(c['paths'])} threads asked for {c['fns']} for the first time in the process (is_supported_file -> {s_})", rep)
+            elif g == "N":
+                run.violation(f"C07:router:{feat}:documented-extension-not-routed", f"get_extractor({p!r}) raises not-supported on first concurrent use; README documents .{ext} -> {want}", rep)
+            elif same is not True:
+                run.violation(f"C07:router:{feat}:differs-from-the-answer-given-alone", f"get_extractor({p!r}) -> {g[2:]} on first concurrent use, another object ({same}) when asked again alone", rep)
+            if s_ == 0:
+                run.violation(f"C07:router:{feat}:documented-extension-unsupported", f"is_supported_file({p!r}) is False on first concurrent use", rep)
+            run.case(f"firstuse|{','.join(c['fns'])}|{cls}|{s_}|{g[:2]}")
+        n_cold += 1 if cold else 0
+    run.count("first_use_thread_observations", n_threads)
+    run.count("first_use_cases_with_unloaded_extractor_module", n_cold)
+    run.require("first_use_thread_observations", n_threads, int(0.85 * 8 * len(cases)))
+    run.require("first_use_cases_with_unloaded_extractor_module", n_cold, int(0.9 * len(cases)))
+
+
 def _judge_sequences(run, seq_cases, res, ctx):
     """Every (state, path) observation of a sequence is judged like a fresh one; flips of the decision between consecutive
     states are counted as evidence that the sequences really moved the MIME fallback in both directions."""
@@ -868,7 +1017,7 @@ def _run_config(cfg, cases, results, errors):
     from vlib import pool
 
     try:
-        for c, obs in pool.run_cases(TASK, cases, workers=cfg["_workers"], deadline_s=180,
+        for c, obs in pool.run_cases(TASK, cases, workers=cfg["_workers"], deadline_s=180, fresh_worker_per_case=bool(cfg.get("_fresh")),
                                      init={k: v for k, v in cfg.items() if not k.startswith("_")}):
             results[c["id"]] = obs
     except Exception as e:  # pragma: no cover - harness failure
@@ -912,6 +1061,11 @@ def main(run):
         t = threading.Thread(target=_run_config, args=(cfg, cases, results[cfg["name"]], errors), daemon=True)
         t.start()
         threads.append(t)
+    first_cases = _first_use_cases(run)
+    first_res: dict = {}
+    t = threading.Thread(target=_run_config, args=({"name": "default", "lazy": True, "_workers": 4, "_fresh": True}, first_cases, first_res, errors), daemon=True)
+    t.start()
+    threads.append(t)
     seq_cases = _sequence_cases(run, cfgs, canary, wl, universe)
     seq_res: dict = {}
     t = threading.Thread(target=_run_config, args=({"name": "default", "_workers": 2}, seq_cases, seq_res, errors), daemon=True)
@@ -1035,6 +1189,8 @@ def main(run):
 
     # -------------------------------------------------------------------- in-process sequences of MIME-database changes
     _judge_sequences(run, seq_cases, seq_res, Ctx())
+    # -------------------------------------------------------------------- concurrent first use of a format in a fresh process
+    _judge_first_use(run, first_cases, first_res)
 
     # -------------------------------------------------------------------- evidence and thresholds
     for k, v in sorted(ctx.counters.items()):
